@@ -54,12 +54,7 @@ theorem parseBody_no_panic (hs : SLOT_SKIP_FROM ≤ RECEIVED_BITS) (ri : Reader 
     (info : ServerInfo) (packetNo offset : Nat) (bs : List UInt8) (hp : packetNo < RECEIVED_BITS) (s : String) :
     parseBody ri ver info packetNo offset bs ≠ .panic s := by
   unfold parseBody
-  simp only
-  generalize (if ver.hasExtraInfo = true then
-      match readStr bs with
-      | some (_, bs) => some bs
-      | none => none
-    else some bs) = ae
+  generalize skipExtra ver bs = ae
   cases ae with
   | none => simp
   | some bs' =>
@@ -353,7 +348,6 @@ theorem parseBody_info {ri : Reader Int} {ver : Version} {info : ServerInfo} {pa
     {p : PartialInfo} (h : parseBody ri ver info packetNo offset bs = .ok (some p)) :
     ∃ cs, p.info = { info with clients := cs } := by
   unfold parseBody at h
-  simp only at h
   split at h
   · simp at h
   · split at h
